@@ -10,7 +10,9 @@ Statements over the model `Model/Sort.lean` of `util/stream/sort.hh`; helper lem
 comparison with the strict-weak-order laws as hypotheses, arbitrary chain blocks, an arbitrary
 finite merge plan (any number of passes, each any partition of the run list into consecutive
 groups — which includes the plan the code computes from `buffer_size`, `total_memory`,
-`lazy_memory`), and an arbitrary tie-break function `pick` for the priority queue.
+`lazy_memory`), and an arbitrary tie-break policy `pick : Pick α` for the priority queue (a function
+of the queue as initially filled, the step number and the current queue — every deterministic
+heap, in particular `std::priority_queue`, is of this form).
 `extSort … = some out` : `none` would mean the Offsets log could not be read back;
 `extSort_isSome` shows that this never happens.
 -/
@@ -69,7 +71,7 @@ theorem merge_sorted_perm {lt : α → α → Bool} (h : StrictWeak lt) (pick) (
       kmerge lt pick (toQueue runs) ~ runs.flatten :=
   ⟨kmerge_sorted h pick runs hr, kmerge_perm h pick runs⟩
 
-example : kmerge (fun a b : Nat => decide (a < b)) (fun _ => 1) (toQueue [[1, 4, 4], [], [2, 4], [0]]) = [0, 1, 2, 4, 4, 4] := by
+example : kmerge (fun a b : Nat => decide (a < b)) (fun _ _ _ => 1) (toQueue [[1, 4, 4], [], [2, 4], [0]]) = [0, 1, 2, 4, 4, 4] := by
   decide
 
 /-- **bufferedEntry_refines**: the per-run file buffers of `MergeQueue::Entry` (refilled by
@@ -476,16 +478,16 @@ theorem combineCounts_complete_suffix : CombComplete suffixLt combineCounts := b
 /-! Concrete runs of the merge machinery (block sorting itself is `List.mergeSort`, which `decide`
 cannot unfold, so the examples start from sorted runs). -/
 
-example : (passes (fun a b : Nat => decide (a < b)) neverCombine (fun _ => 0) [[2], [5]] [[1, 3], [2, 2], [0]]).map
-    (finalMerge (fun a b : Nat => decide (a < b)) neverCombine (fun _ => 0)) = some [0, 1, 2, 2, 3] := by decide
+example : (passes (fun a b : Nat => decide (a < b)) neverCombine (fun _ _ _ => 0) [[2], [5]] [[1, 3], [2, 2], [0]]).map
+    (finalMerge (fun a b : Nat => decide (a < b)) neverCombine (fun _ _ _ => 0)) = some [0, 1, 2, 2, 3] := by decide
 
-example : (passes suffixLt combineCounts (fun _ => 0) [[2]]
+example : (passes suffixLt combineCounts (fun _ _ _ => 0) [[2]]
       [[⟨[0, 1], 1⟩, ⟨[1, 2], 5⟩], [⟨[1, 2], 7⟩], [⟨[3, 0], 2⟩, ⟨[1, 2], 1⟩]]).map
-    (finalMerge suffixLt combineCounts (fun _ => 0))
+    (finalMerge suffixLt combineCounts (fun _ _ _ => 0))
     = some [⟨[3, 0], 2⟩, ⟨[0, 1], 1⟩, ⟨[1, 2], 13⟩] := by decide
 
 /-- a single run is only copied, not combined (`ReadSingle`): this is why the duplicate-free
 clause needs duplicate-free blocks -/
-example : finalMerge suffixLt combineCounts (fun _ => 0) [[⟨[1], 5⟩, ⟨[1], 7⟩]] = [⟨[1], 5⟩, ⟨[1], 7⟩] := by decide
+example : finalMerge suffixLt combineCounts (fun _ _ _ => 0) [[⟨[1], 5⟩, ⟨[1], 7⟩]] = [⟨[1], 5⟩, ⟨[1], 7⟩] := by decide
 
 end KV.C16
